@@ -12,10 +12,13 @@
 (* period Interval, one ping per tick with a timeout of Interval \div 2, the  *)
 (* consecutiveFailures counter, threshold normalisation, silent stop on       *)
 (* method-not-found, exit on context cancellation (session Close).  The       *)
-(* environment fixes the peer's outcome script, the configured threshold and  *)
+(* environment fixes the peer's outcome script, the configured threshold,     *)
 (* the instant at which the owner closes the session and for how long that   *)
-(* Close has to wait for a running request handler.  Time is explicit         *)
-(* (`now` jumps to the next event).                                           *)
+(* Close has to wait for a running request handler, the instant at which the  *)
+(* peer completes the protocol handshake (keep-alive is started by Connect,   *)
+(* before any handshake) and the fate of the context that was given to        *)
+(* Connect once Connect has returned.  Time is explicit (`now` jumps to the   *)
+(* next event).                                                               *)
 EXTENDS Integers, Sequences, FiniteSets, TLC
 
 -----------------------------------------------------------------------------
@@ -57,12 +60,29 @@ Accuracy(o) ==
        /\ NoM(P, Len(P))
        /\ o.closed >= P[Len(P)].at            \* not before the last of them was even sent
 
+\* A session "whose peer stops answering pings is closed": the peer may stop at ANY instant,
+\* and it can only be closed "within that many intervals plus one ping timeout" of that
+\* instant if it is being pinged.  For as long as keep-alive is in force (the peer has not
+\* declared ping unsupported, the session has neither been closed by keep-alive nor by its
+\* owner) ping attempts are therefore at most one interval apart.  Every observation ends
+\* with a closure or the owner's Close, so "no ping by then" is an observed fact.
+KAEnds(o) == {o.pings[j].at : j \in {i \in 1..Len(o.pings) : o.pings[i].o = "m"}}
+             \cup {t \in {o.closed, o.userClose} : t >= 0}
+Sustained(o) ==
+  KAEnds(o) # {} =>
+    LET e == MinOf(KAEnds(o))
+        pts == <<o.start>> \o SelectSeq(o.attempts, LAMBDA t : t < e) \o <<e>>
+    IN \A i \in 1..(Len(pts) - 1) : pts[i + 1] - pts[i] <= o.I
+
 \* "closed after exactly the configured number": as soon as Norm(T) consecutive pings
-\* have failed the session is closed, and no further ping is attempted.
+\* have failed the session is closed, and no further ping is attempted; and the peer is
+\* pinged for as long as keep-alive is in force (a detector that stops looking never
+\* sees the failures).
 Completeness(o) ==
   LET n == Norm(o.T)  H == Hits(o.pings, n)
-  IN H # {} => /\ o.closed >= 0
-               /\ Len(Before(o.pings, o.closed)) = MinOf(H)
+  IN /\ H # {} => /\ o.closed >= 0
+                  /\ Len(Before(o.pings, o.closed)) = MinOf(H)
+     /\ Sustained(o)
 
 \* "within that many intervals plus one ping timeout" of the peer going silent
 Timing(o) ==
@@ -104,13 +124,20 @@ Holds(o) == Accuracy(o) /\ Completeness(o) /\ Timing(o) /\ SilentStop(o) /\ NoLe
 -----------------------------------------------------------------------------
 (* Part 2: the ticker loop                                                    *)
 
-CONSTANTS Interval,      \* ticker period in clock units, a multiple of 4
+CONSTANTS Interval,      \* ticker period in clock units, a multiple of 8
           MaxLen,        \* longest outcome script
           Thresholds,    \* configured KeepAliveFailureThreshold values
           AnswerDelays,  \* how long an answering peer may take, all < PingTimeout(Interval)
-          DrainLens      \* for how many intervals the owner's Close may wait for a running handler
+          DrainLens,     \* for how many intervals the owner's Close may wait for a running handler
+          HsSlots,       \* when the peer completes the handshake: 0 before Connect returns, j > 0 after
+                         \* the j-th tick, -1 not at all while the session is observed
+          CtxSlots,      \* fate of the context given to Connect: -1 kept alive, k >= 0 cancelled after the
+                         \* k-th tick (0: right after Connect returned, the usual `defer cancel()`)
+          EnvMaxLen,     \* longest outcome script combined with a non-default handshake / context slot
+          EnvProduct     \* TRUE: late handshake and cancelled Connect context also in combination
 
-ASSUME Interval % 4 = 0 /\ \A d \in AnswerDelays : d >= 0 /\ d < PingTimeout(Interval)
+ASSUME Interval % 8 = 0 /\ \A d \in AnswerDelays : d >= 0 /\ d < PingTimeout(Interval)
+ASSUME 0 \in HsSlots /\ -1 \in CtxSlots /\ EnvProduct \in BOOLEAN
 
 VARIABLES
   script,     \* Seq(Outcomes): what the peer does with ping 1, 2, ...
@@ -130,9 +157,11 @@ VARIABLES
   resolveAt,  \* when session.Ping returns
   hist,       \* Seq([at, o]) the pings seen by the peer
   closedAt,   \* when keep-alive closed the session (-1: it did not)
-  userAt      \* when the owner closed the session (-1: not yet)
+  userAt,     \* when the owner closed the session (-1: not yet)
+  hs,         \* the handshake slot of this run (\in HsSlots)
+  cc          \* the Connect-context slot of this run (\in CtxSlots)
 
-vars == <<script, thr0, endMode, drain, drainedAt, now, pc, tickerOn, nextTick, ctxDone, cf, k, pend, resolveAt, hist, closedAt, userAt>>
+vars == <<script, thr0, endMode, drain, drainedAt, now, pc, tickerOn, nextTick, ctxDone, cf, k, pend, resolveAt, hist, closedAt, userAt, hs, cc>>
 
 Scripts == UNION {[1..n -> Outcomes] : n \in 0..MaxLen}
 
@@ -142,12 +171,37 @@ UserTime == IF endMode \in {"idle", "drain"} THEN Len(script) * Interval + (3 * 
             ELSE (Len(script) + 1) * Interval + Interval \div 4
 UserPending == userAt < 0 /\ closedAt < 0
 
+\* The two environment events lie strictly between the other events of an interval (tick 0,
+\* answer <= 2/8, owner's Close with a ping in flight 2/8, ping timeout 4/8, owner's Close 6/8).
+\*
+\* Handshake: Connect starts keep-alive on a connection whose peer has not yet sent
+\* initialize (the protocol allows ping before initialization), so the first ticks may come
+\* before the handshake, or the handshake may never come.  What the peer does with a ping
+\* is the script's business either way: a peer that has not initialized yet answers, ignores
+\* or rejects pings like any other.
+HsTime == IF hs <= 0 THEN hs ELSE hs * Interval + (3 * Interval) \div 8
+Inited == hs >= 0 /\ now >= HsTime
+\* Connect context: it bounds connecting and the handshake.  The session, and with it keep-
+\* alive, outlives it: keep-alive has a context of its own (ctxDone) that only closing the
+\* session cancels.  The caller typically cancels the Connect context as soon as Connect has
+\* returned (WithTimeout + defer cancel()), or at any later time.
+CcTime == IF cc < 0 THEN -1 ELSE cc * Interval + (7 * Interval) \div 8
+ConnCtxDone == cc >= 0 /\ now >= CcTime
+\* Neither Inited nor ConnCtxDone occurs in any action below: the loop pings an uninitialized
+\* peer and keeps pinging after the Connect context has ended.  They are part of the case
+\* (the conformance harness makes the peer and the caller behave so) and of the witnesses.
+
 OutcomeAt(i) == IF i <= Len(script) THEN script[i] ELSE "u"
 Delays(oc) == IF oc = "a" THEN AnswerDelays ELSE {0}
 
 Init ==
   /\ script \in Scripts /\ thr0 \in Thresholds /\ endMode \in {"idle", "inflight", "drain"}
   /\ drain \in (IF endMode = "drain" THEN DrainLens ELSE {0}) /\ drainedAt = -1
+  /\ hs \in HsSlots /\ cc \in CtxSlots
+  /\ (hs # 0 \/ cc # -1) => Len(script) <= EnvMaxLen
+  /\ (hs # 0 /\ cc # -1) => EnvProduct
+  \* the request whose handler keeps the owner's Close waiting is only served after the handshake
+  /\ endMode = "drain" => (hs >= 0 /\ hs <= Len(script))
   /\ now = 0 /\ pc = "select" /\ tickerOn = TRUE /\ nextTick = Interval /\ ctxDone = FALSE
   /\ cf = 0 /\ k = 0 /\ pend = [o |-> "a", d |-> 0] /\ resolveAt = 0 /\ hist = <<>>
   /\ closedAt = -1 /\ userAt = -1
@@ -163,7 +217,7 @@ Tick ==
        /\ resolveAt' = (IF OutcomeAt(k + 1) \in {"t", "u"} THEN nextTick + PingTimeout(Interval) ELSE nextTick + d)
   /\ hist' = Append(hist, [at |-> nextTick, o |-> OutcomeAt(k + 1)])
   /\ pc' = "ping"
-  /\ UNCHANGED <<script, thr0, endMode, drain, drainedAt, tickerOn, ctxDone, cf, closedAt, userAt>>
+  /\ UNCHANGED <<hs, cc, script, thr0, endMode, drain, drainedAt, tickerOn, ctxDone, cf, closedAt, userAt>>
 
 \* session.Ping returns
 Resolve ==
@@ -183,7 +237,7 @@ Resolve ==
            ELSE \* session.Close(): idempotent; cancels the keep-alive context
               /\ pc' = "closed" /\ tickerOn' = FALSE /\ ctxDone' = TRUE
               /\ closedAt' = (IF userAt < 0 THEN resolveAt ELSE closedAt)
-  /\ UNCHANGED <<script, thr0, endMode, drain, drainedAt, nextTick, k, pend, resolveAt, hist, userAt>>
+  /\ UNCHANGED <<hs, cc, script, thr0, endMode, drain, drainedAt, nextTick, k, pend, resolveAt, hist, userAt>>
 
 \* the owner calls Close on the session: the keep-alive context is cancelled
 UserClose ==
@@ -191,7 +245,7 @@ UserClose ==
   /\ (pc = "select" /\ tickerOn) => UserTime < nextTick
   /\ pc = "ping" => UserTime < resolveAt
   /\ now' = UserTime /\ userAt' = UserTime /\ ctxDone' = TRUE
-  /\ UNCHANGED <<script, thr0, endMode, drain, drainedAt, pc, tickerOn, nextTick, cf, k, pend, resolveAt, hist, closedAt>>
+  /\ UNCHANGED <<hs, cc, script, thr0, endMode, drain, drainedAt, pc, tickerOn, nextTick, cf, k, pend, resolveAt, hist, closedAt>>
 
 \* the handler the owner's Close was waiting for returns: Close completes.  Time does not
 \* pass while the loop can leave (Exit is instantaneous), and earlier events come first.
@@ -202,13 +256,13 @@ DrainEnd ==
   /\ (pc = "select" /\ tickerOn) => DrainTime < nextTick
   /\ pc = "ping" => DrainTime < resolveAt
   /\ now' = DrainTime /\ drainedAt' = DrainTime
-  /\ UNCHANGED <<script, thr0, endMode, drain, pc, tickerOn, nextTick, ctxDone, cf, k, pend, resolveAt, hist, closedAt, userAt>>
+  /\ UNCHANGED <<hs, cc, script, thr0, endMode, drain, pc, tickerOn, nextTick, ctxDone, cf, k, pend, resolveAt, hist, closedAt, userAt>>
 
 \* case <-ctx.Done(): return (deferred ticker.Stop)
 Exit ==
   /\ pc = "select" /\ ctxDone
   /\ pc' = "done" /\ tickerOn' = FALSE
-  /\ UNCHANGED <<script, thr0, endMode, drain, drainedAt, now, nextTick, ctxDone, cf, k, pend, resolveAt, hist, closedAt, userAt>>
+  /\ UNCHANGED <<hs, cc, script, thr0, endMode, drain, drainedAt, now, nextTick, ctxDone, cf, k, pend, resolveAt, hist, closedAt, userAt>>
 
 Next == Tick \/ Resolve \/ UserClose \/ DrainEnd \/ Exit
 Spec == Init /\ [][Next]_vars /\ WF_vars(Next)
@@ -220,6 +274,8 @@ LoopGone == pc \in {"closed", "stopped", "done"}
 Terminal == LoopGone /\ (closedAt >= 0 \/ (userAt >= 0 /\ (endMode = "drain" => drainedAt >= 0)))
 
 \* the observation a peer and the owner would make of the current state
+\* (start = 0: Connect returns at once; a late handshake does not delay it on the side that
+\* waits for the peer's initialize, and on the side that sends initialize hs is 0)
 ObsOf == [T |-> thr0, I |-> Interval, start |-> 0, pings |-> hist,
           attempts |-> [i \in 1..Len(hist) |-> hist[i].at],
           closed |-> closedAt, userClose |-> userAt,
@@ -231,6 +287,7 @@ TrailingFails(h) == LET S == {n \in 0..Len(h) : Run(h, Len(h), n)} IN MaxOf(S)
 
 TypeOK ==
   /\ pc \in {"select", "ping", "closed", "stopped", "done"}
+  /\ hs \in HsSlots /\ cc \in CtxSlots
   /\ cf \in 0..MaxLen + 1 /\ k \in 0..MaxLen + 1 /\ now >= 0
   /\ closedAt >= -1 /\ userAt >= -1
 
